@@ -5,6 +5,7 @@ package pppoe
 import (
 	"context"
 	"encoding/binary"
+	"fmt"
 	"net"
 	"sync"
 	"time"
@@ -485,6 +486,10 @@ func ParsePADT(data []byte) (sessionID uint16, tags []Tag, err error) {
 
 	if hdr.Code != CodePADT {
 		return 0, nil, nil
+	}
+
+	if int(hdr.Length) > len(data)-6 {
+		return 0, nil, fmt.Errorf("PPPoE length exceeds data")
 	}
 
 	if len(data) > 6 {
